@@ -169,11 +169,14 @@ def check_C13(ctx):
                dict(spec="TrSpec", invariants=["Sorted"], postcondition="Accepted"),
                ["cp", "record", "--runs", str(runs), "--ops", str(ops)],
                "recorded ControlPoints history is not a behaviour of the specification", "cp-trace")
+    # (5b) the two zeros are one time (fixed histories per kind)
+    summ = harness(ctx, ["cp", "negzero"], name="cp-negzero")
+    report_mismatches(ctx, summ, "a point at -0.0 and a point at 0.0 are not treated as points at one time")
     # (6) beyond the finite time alphabet: strict sortedness is an inductive invariant of insertion for ARBITRARY integer
     #     times (Apalache, lists of up to 5 entries): base case and inductive step
     apalache(ctx, "ControlPointsInd", ["--cinit=ConstInit", "--init=IndInit", "--inv=IndInv", "--length=0"])
     apalache(ctx, "ControlPointsInd", ["--cinit=ConstInit", "--init=IndInit", "--inv=IndInv", "--length=1"])
-    ctx.assumptions += ["times passed to the API are finite and not -0.0 (the property's alphabet)",
+    ctx.assumptions += ["times passed to the API are finite; -0.0 only in the fixed histories of `cp negzero`",
                         "slider velocity / scroll speed values are multiples of 1/1000"]
     return finish(ctx, "model_checking",
                   "TLC enumerates the complete reachable graph of add operations per kind over times {-1,0,1,2} x 2 values "
